@@ -14,6 +14,8 @@ structure DynOp (P : Type) where
   valueOnly : Bool := false
   reorderSafe : Bool := false
   cost : Nat := 10
+  /-- identifies the op in structural comparisons with the real planner's output (no semantics) -/
+  label : String := ""
 
 inductive Node (P : Type) where
   | source (whole : P) (len : Nat) (split : Nat → List P)
